@@ -52,6 +52,7 @@ class Found:
 
 
 def find(fid):
+    fid = fid.split("@")[0]          # contract variants share the function
     mod, qual = fid.split(":")
     tree = module_ast(mod)
     parts = qual.split(".")
